@@ -303,7 +303,7 @@ theorem Inv4.stepL {s t : St} {ev : Ev} (h1 : Inv1 s) (h : Inv4 s) (hs : PE.step
 
 theorem Inv4.step {s t : St} {ev : Ev} (h1 : Inv1 s) (h : Inv4 s) (hs : PE.step s ev = some t) : Inv4 t := by
   cases ev <;> simp only [PE.step] at hs <;>
-    first | exact h.stepEnv h1 hs | exact h.stepP h1 hs | exact h.stepE h1 hs | exact h.stepG h1 hs | exact h.stepL h1 hs
+    first | exact h.stepEnv h1 hs | exact h.stepP h1 hs | exact h.stepE h1 hs | exact h.stepG h1 hs | exact h.stepL h1 hs | exact (stepD_eq hs) ▸ h
 
 /-- all invariants together -/
 structure Inv (s : St) : Prop where
